@@ -4,10 +4,13 @@ package internal_test
 
 import (
 	"bytes"
+	cryptorand "crypto/rand"
 	"encoding/json"
 	"fmt"
 	"math/big"
+	"strings"
 	"testing"
+	"time"
 
 	"github.com/bilibili/smgo/sm2/internal"
 	"verif/refs"
@@ -54,6 +57,12 @@ func c14eval(r *vx.R, c c14case) {
 	key := "sm2mul:" + c.Fn
 	if kind != "" {
 		r.Violation(key+":panic", fmt.Sprintf("%s panicked (%s): %s", c.Fn, kind, msg), c)
+		return
+	}
+	if (err != nil || got == nil) && strings.HasPrefix(c.Shape, "hostile-rand") {
+		// refusing to work without usable entropy is a legitimate answer of an implementation that blinds; a wrong
+		// multiple is not
+		r.Add("observation_error_under_hostile_entropy", 1)
 		return
 	}
 	if err != nil || got == nil {
@@ -218,6 +227,16 @@ func c14reuse(r *vx.R, fn string, p1, p2 sm2ref.Point, g, s []byte, how string) 
 
 func bytes32(v *big.Int) []byte { return sm2ref.Bytes32(v) }
 
+// repeatReader delivers the same 32 bytes over and over.
+type repeatReader struct{ b []byte }
+
+func (r repeatReader) Read(p []byte) (int, error) {
+	for i := range p {
+		p[i] = r.b[i%len(r.b)]
+	}
+	return len(p), nil
+}
+
 // combScalars enumerates, for the fixed-window layout (window w, step = subTables*iterations, remainder rem),
 // every window value at every window position with the other bits zero (bg=0) or seeded (bg=1).
 func combScalars(w, sub, iter, rem int, bgs []int, emit func(k []byte, shape string)) {
@@ -287,7 +306,7 @@ func c14points() map[string]sm2ref.Point {
 }
 
 func TestVX_C14(t *testing.T) {
-	r := vx.Begin("C14", "mul-public", "ScalarBaseMult: every window value at every window position of the fixed-window layouts (6-3-14-4 always; 4-2-32, 5-3-17, 7-3-12 layouts too in thorough) on zero and seeded backgrounds, all remainder values, 0,1,2,n-1,n,n+1,2^256-1,2^i,2^i-1. ScalarMult: P in {G,-G,2G,-2G,3G,O,seeded x3}, scalar lengths 0,1,2,31,32,33, every nibble value at every nibble position, boundary values. ScalarMixedMult_Unsafe: s=d*2^i and 2^(i+5)-d*2^i for odd d at every i (every signed digit at every position), g from the base alphabet, P chosen so that [g]G and [s]P collide/cancel. After every call the returned point is computed on in place and overwritten, then fixed canary multiples are recomputed (results must not share storage with tables or package constants); failing calls (scalars of length 0,1,16,31,33,40, nil point, nil scalars) each followed by well-formed calls. Oracle sm2ref (math/big Jacobian, validated against affine arithmetic). Shape=(function, layout, position, value, background | point, length, nibble | digit, position, point)")
+	r := vx.Begin("C14", "mul-public", "ScalarBaseMult: every window value at every window position of the fixed-window layouts (6-3-14-4 always; 4-2-32, 5-3-17, 7-3-12 layouts too in thorough) on zero and seeded backgrounds, all remainder values, 0,1,2,n-1,n,n+1,2^256-1,2^i,2^i-1. ScalarMult: P in {G,-G,2G,-2G,3G,O,seeded x3}, scalar lengths 0,1,2,31,32,33, every nibble value at every nibble position, boundary values. ScalarMixedMult_Unsafe: s=d*2^i and 2^(i+5)-d*2^i for odd d at every i (every signed digit at every position), g from the base alphabet, P chosen so that [g]G and [s]P collide/cancel. After every call the returned point is computed on in place and overwritten, then fixed canary multiples are recomputed (results must not share storage with tables or package constants); the same multiplications with crypto/rand.Reader replaced by sources that deliver all ones / all zero / the bytes of p / of n; failing calls (scalars of length 0,1,16,31,33,40, nil point, nil scalars) each followed by well-formed calls. Oracle sm2ref (math/big Jacobian, validated against affine arithmetic). Shape=(function, layout, position, value, background | point, length, nibble | digit, position, point)")
 	defer r.End()
 	i0, _ := vx.Shard()
 	if err := refs.SelfCheck(i0 == 0 && !vx.Replaying()); err != nil {
@@ -427,6 +446,34 @@ func TestVX_C14(t *testing.T) {
 				c14reuse(r, "mixed", pts["G"], pts["2G"], g, bytes32(sv), how)
 			}
 		}
+	}
+	// a hostile process-wide entropy source: nothing here takes a randomness argument, so the results must not depend on
+	// what crypto/rand.Reader delivers (all ones: every 32-byte draw is >= p and >= n; all zero; the bytes of p; of n)
+	if vx.MineIdx(6) {
+		old := cryptorand.Reader
+		for hn, fillb := range map[string][]byte{"ones": bytes.Repeat([]byte{0xff}, 32), "zero": make([]byte, 32), "p": bytes32(sm2ref.P), "n": bytes32(sm2ref.N)} {
+			cryptorand.Reader = repeatReader{fillb}
+			P5 := vx.Hex(encRef(sm2ref.BaseMul(big.NewInt(5))))
+			hung := false
+			for i, sc := range []*big.Int{big.NewInt(1), big.NewInt(0x1234567), bnd["n-1"], new(big.Int).SetBytes(vx.Fill("hostile", 32))} {
+				for _, cs := range []c14case{
+					{Fn: "mult", S: vx.Hex(bytes32(sc)), P: P5, Shape: fmt.Sprintf("hostile-rand:%s:%d", hn, i)},
+					{Fn: "mixed", G: vx.Hex(bytes32(sc)), S: vx.Hex(bytes32(big.NewInt(77))), P: P5, Shape: fmt.Sprintf("hostile-rand:%s:%d", hn, i)},
+					{Fn: "base", G: vx.Hex(bytes32(sc)), Shape: fmt.Sprintf("hostile-rand:%s:%d", hn, i)},
+				} {
+					if hung {
+						continue
+					}
+					cs := cs
+					if kind, _ := vx.TryTimeout(func() { c14eval(r, cs) }, 60*time.Second); kind == "hang" {
+						// waiting for better entropy forever is not a wrong multiple either
+						r.Add("observation_hang_under_hostile_entropy", 1)
+						hung = true
+					}
+				}
+			}
+		}
+		cryptorand.Reader = old
 	}
 	// calls that fail, each followed by well-formed calls
 	if vx.MineIdx(5) {
